@@ -1,9 +1,162 @@
 import Pandora.Drv.Util
+import Pandora.Spec.C06
+import Pandora.Model.C06CliShutdown
 
+/-!
+Line-protocol driver of C06. Input kinds (see harness/cmd/c06):
+
+  kind=line id=0|1 ns=<unixnano> tag=<hex> sid=<uint64> f=<10 ints> via=api|raw   one sample through the real phout aggregator
+  kind=str  ns=… tag=… sid=… f=… via=…                                            `(*Sample).String()` = appendPhout(s, nil, true)
+  kind=queue agg=phout|jsonlines g=<G> k=<K> q=<Q> …                              reporters × queue × aggregator
+  kind=json n=<N> q=<Q> seed=<S>                                                  jsonlines, content level
+  kind=proc sig=INT|TERM at=<ms> rps=<R>                                          the pandora binary, stopped by a signal
+-/
 namespace Pandora.Drv.C06
-open Pandora.Drv
+open Pandora.Drv Pandora.Spec.C06 Pandora.Model.Phout
 
-/-- stub: replaced when the property's model driver is written -/
-def handle : Handler := fun _ _ => ("-", "skip:not-built")
+def parseSample (kv : List (String × String)) : Option Sample := do
+  let ns ← getI? kv "ns"
+  let tag ← parseHex (getS kv "tag")
+  let sid ← getN? kv "sid"
+  let f ← parseInts (getS kv "f")
+  match f with
+  | [a, b, c, d, e, g, h, i, j, k] =>
+    pure { ms := msOfNanos ns, tag := tag, id := sid, intervalReal := a, connect := b, send := c, latency := d,
+           receive := e, intervalEvent := g, sizeOut := h, sizeIn := i, netCode := j, protoCode := k }
+  | _ => none
+
+def parseLineObs (impl : String) : LineObs :=
+  let kv := parseKV impl
+  match lookup kv "out" with
+  | some h =>
+    match parseHex h with
+    | some b => .bytes b
+    | none => .other "unparsable hex"
+  | none =>
+    match lookup kv "panic" with
+    | some w => .panic w
+    | none => .other (impl.take 80).toString
+
+def modelLine (bytes : Option Bytes) : String :=
+  match bytes with
+  | some b => s!"out={toHex b}"
+  | none => "panic=index"
+
+def handleLine (kv : List (String × String)) (impl : String) (str : Bool) : String × String :=
+  match parseSample kv with
+  | none => ("-", "fail:driver:unparsable input")
+  | some s =>
+    let withId := str || getS kv "id" == "1"
+    let m := if str then encodeBody s true else encode s withId
+    let obs := parseLineObs impl
+    -- `String()` has no LF: judge it as a line by adding the terminator the aggregator would add
+    let obs' := if str then (match obs with | .bytes b => LineObs.bytes (b ++ [LF]) | o => o) else obs
+    (modelLine m, judgeLine s withId obs')
+
+/-! ### queue cases: the model must be able to exhibit the observed outcome -/
+
+open Pandora.Model.AggQueue in
+/-- a schedule under which the model accepts `l` and drops `d` of `g*k` reports (round-robin reporters):
+fill the queue, overflow `d` times, then alternate receive/report, cancel after the last report, drain. -/
+def witnessSchedule (g k q l d : Nat) : List Ev :=
+  let n := g * k
+  let rr : List Ev := (List.range n).map fun i => Ev.report (i % g)
+  let first := min n (if d == 0 then 0 else q)
+  -- d = 0: strictly alternate (queue never fills); d > 0: q accepted, d dropped, rest alternating
+  let head := rr.take (first + d)
+  let tail := (rr.drop (first + d)).flatMap fun e => [Ev.recv false, e]
+  let _ := l
+  head ++ tail ++ [Ev.cancel, Ev.seeCancel] ++ (List.replicate (n + 2) Ev.drain)
+
+open Pandora.Model.AggQueue in
+def modelQueue (kind : Kind) (g k q l d : Nat) : String :=
+  let progs : Nat → List Nat := fun r => if r < g then List.range k else []
+  let st := run { kind := kind, cap := q } (init progs) (witnessSchedule g k q l d)
+  let err := match st.err with | none => "nil" | some n => s!"dropped:{n}"
+  let ret := st.phase == .returned
+  s!"reports={st.log.length} lines={st.out.length} dropped={st.droppedCount} err={err} order=1 dup=0 bad=0 closed={if st.closed && ret && st.buf.isEmpty then 1 else 0}"
+
+def parseW (s : String) : Option (List (Nat × Nat)) :=
+  (splitList s ",").mapM fun t =>
+    match t.splitOn "." with
+    | [a, b] => do pure ((← a.toNat?), (← b.toNat?))
+    | _ => none
+
+def handleQueue (kv : List (String × String)) (impl : String) : String × String :=
+  let ikv := parseKV impl
+  let kind? : Option Pandora.Model.AggQueue.Kind := match getS kv "agg" with
+    | "phout" => some .phout
+    | "jsonlines" => some .encoder
+    | _ => none
+  match kind?, getN? kv "g", getN? kv "k", getN? kv "q" with
+  | some kind, some g, some k, some q =>
+    match getN? ikv "reports", getN? ikv "lines", getN? ikv "dropped" with
+    | some reports, some lines, some dropped =>
+      let wtok := lookup ikv "w"
+      let w := wtok.bind parseW
+      if wtok.isSome && w.isNone then ("-", "fail:driver:unparsable sequence") else
+      let o : QueueObs := { reports := reports, lines := lines, dropped := dropped, err := getS ikv "err",
+                            order := getS ikv "order" == "1", dup := (getN? ikv "dup").getD 1,
+                            bad := (getN? ikv "bad").getD 1, closed := getS ikv "closed" == "1", w := w }
+      let i : QueueIn := { kind := kind, g := g, k := k, q := q }
+      -- is the observed (lines, dropped) an outcome of the model? if not predict the no-drop run
+      let feasible := lines + dropped == g * k && (kind == .encoder || dropped == 0) &&
+                      (dropped == 0 || lines ≥ min (g * k) q)
+      let m := if feasible then modelQueue kind g k q lines dropped else modelQueue kind g k q (g * k) 0
+      let m := match wtok with | some t => s!"{m} w={t}" | none => m
+      (m, judgeQueue i o)
+    | _, _, _ => ("-", s!"fail:crash:{(impl.take 120).toString}")
+  | _, _, _, _ => ("-", "fail:driver:unparsable input")
+
+def handleJson (kv : List (String × String)) (impl : String) : String × String :=
+  let ikv := parseKV impl
+  match getN? kv "n", getN? kv "q", getN? ikv "lines", getN? ikv "dropped" with
+  | some n, some q, some lines, some dropped =>
+    let outTok := lookup ikv "out"
+    let out := outTok.bind parseHex
+    if outTok.isSome && out.isNone then ("-", "fail:driver:unparsable hex") else
+    let o : JsonObs := { reports := (getN? ikv "reports").getD 0, lines := lines, valid := (getN? ikv "valid").getD 0,
+                         rt := (getN? ikv "rt").getD 0, tail := (getN? ikv "tail").getD 1, dropped := dropped,
+                         err := getS ikv "err", closed := getS ikv "closed" == "1", out := out }
+    -- one reporter: with q ≥ n nothing can be dropped; otherwise any split with lines ≥ q is an outcome
+    let feasible := lines + dropped == n && (dropped == 0 || lines ≥ min n q)
+    let (l, d) := if feasible then (lines, dropped) else (n, 0)
+    let err := if d == 0 then "nil" else s!"dropped:{d}"
+    let rt := if d == 0 then l else o.rt
+    let m := s!"reports={n} lines={l} valid={l} rt={rt} tail=0 dropped={d} err={err} closed=1"
+    let m := match outTok with | some t => s!"{m} out={t}" | none => m
+    (m, if o.reports != n then "fail:driver:report count" else judgeJson o)
+  | _, _, _, _ => ("-", s!"fail:crash:{(impl.take 120).toString}")
+
+open Pandora.Model.CliShutdown in
+/-- what the (repaired) shutdown model says about a single signal: the exit is reached with everything flushed -/
+def modelProcFlushed (sig : String) : Bool :=
+  let s := if sig == "INT" then Sig.int else Sig.term
+  let st := run true {} [.signal s, .takeSignal, .engineReturned false, .takeErrs, .tasksDone, .takeWaitDone]
+  match st.exit with
+  | some x => x.flushed
+  | none => false
+
+def handleProc (kv : List (String × String)) (impl : String) : String × String :=
+  let ikv := parseKV impl
+  if (lookup ikv "inconclusive").isSome then ("-", "skip:inconclusive")
+  else if !modelProcFlushed (getS kv "sig") then ("-", "fail:driver:shutdown model does not flush")
+  else match getI? ikv "exit", getN? ikv "served_before", getN? ikv "started", getN? ikv "lines" with
+  | some ex, some sb, some st, some l =>
+    ("-", judgeProc { exit := ex, servedBefore := sb, started := st, lines := l, bad := (getN? ikv "bad").getD 0,
+                      repro := (getN? ikv "repro").getD 0 })
+  | _, _, _, _ => ("-", s!"fail:crash:{(impl.take 160).toString}")
+
+def handle : Handler := fun input impl =>
+  let kv := parseKV input
+  if impl.startsWith "PANIC" then ("-", s!"fail:panic:{(impl.take 160).toString}")
+  else if impl == "HANG" then ("-", "fail:hang:case did not finish")
+  else match getS kv "kind" with
+  | "line" => handleLine kv impl false
+  | "str" => handleLine kv impl true
+  | "queue" => handleQueue kv impl
+  | "json" => handleJson kv impl
+  | "proc" => handleProc kv impl
+  | k => ("-", s!"fail:driver:unknown kind {k}")
 
 end Pandora.Drv.C06
